@@ -41,10 +41,11 @@ FLAGS = st.fixed_dictionaries({
     "ack_type": st.sampled_from([None, "when_received", "when_executed", "when_saved", "WHEN_EXECUTED"]),
     "max_async_tasks": st.one_of(st.none(), st.integers(1, 50)),
     "max_prefetch": st.one_of(st.none(), st.integers(0, 20)),
+    "max_threadpool_threads": st.one_of(st.none(), st.none(), st.integers(1, 6)),
     "no_parse": st.booleans(),
     "no_propagate_errors": st.booleans(),
-    "max_tasks_per_child": st.one_of(st.none(), st.integers(1, 500)),
-    "wait_tasks_timeout": st.one_of(st.none(), st.sampled_from([0.5, 2.0, 30.0])),
+    "max_tasks_per_child": st.one_of(st.none(), st.integers(0, 500)),
+    "wait_tasks_timeout": st.one_of(st.none(), st.sampled_from([0, 0.0, 0.5, 2.0, 30.0])),
     "max_fails": st.one_of(st.none(), st.integers(-1, 5)),
     "workers": st.one_of(st.none(), st.integers(1, 4)),
 })
@@ -54,7 +55,7 @@ def argv_of(flags: Dict[str, Any]) -> List[str]:
     a = ["vt.harness.cliwire:broker_factory", "--receiver", "vt.harness.cliwire:RecordingReceiver"]
     if flags.get("ack_type"):
         a += ["--ack-type", flags["ack_type"]]
-    for name in ("max_async_tasks", "max_prefetch", "max_tasks_per_child", "wait_tasks_timeout", "max_fails", "workers"):
+    for name in ("max_async_tasks", "max_prefetch", "max_tasks_per_child", "wait_tasks_timeout", "max_fails", "workers", "max_threadpool_threads"):
         if flags.get(name) is not None:
             a += ["--" + name.replace("_", "-"), str(flags[name])]
     if flags.get("no_parse"):
@@ -104,5 +105,10 @@ def check(flags: Dict[str, Any], keys: List[str], clause: str, out: Any) -> None
         return
     exp = expected(flags)
     for k in keys:
-        if got.get(k) != exp[k] or type(got.get(k)) is not type(exp[k]):
+        g, e = got.get(k), exp[k]
+        if k == "max_tasks_to_execute" and not g and not e:
+            continue        # 0 and None both mean "no limit"
+        if k == "wait_tasks_timeout" and g is not None and e is not None and float(g) == float(e):
+            continue
+        if g != e or type(g) is not type(e):
             out.add(clause, f"`taskiq worker {' '.join(argv_of(flags)[3:])}` builds the receiver with {k}={got.get(k)!r}, the flags mean {exp[k]!r}")
